@@ -7,6 +7,7 @@ package strings
 //@ pure containsStr(strs []string, s string) bool = exists k int :: 0 <= k && k < len(strs) && strs[k] == s
 
 //@ func ContainsString
+//@   params strs, s
 //@   tags C18
 //@   loop 1 invariant -1 <= rangeindex && rangeindex < len(strs)
 //@   loop 1 invariant forall k int :: 0 <= k && k <= rangeindex ==> strs[k] != s
